@@ -74,6 +74,8 @@ StrTable ==
   @@ "bs_oct"     :> <<92, 49, 48, 49>>               \* the four characters \101
   @@ "nl"         :> <<10>>
   @@ "tab_cr"     :> <<9, 13>>
+  @@ "crlf"       :> <<97, 13, 10, 98>>               \* a CR LF b: the pair stays a pair
+  @@ "lfcr"       :> <<10, 13, 13, 10, 10>>
   @@ "nul"        :> <<0>>
   @@ "nul_digit"  :> <<0, 49>>                        \* NUL followed by the digit 1
   @@ "nul_mid"    :> <<97, 0, 55, 98>>                \* a NUL 7 b
